@@ -213,8 +213,11 @@ func c08(w *core.World, r *core.Report) {
 		var calls []ssa.CallInstruction
 		for _, c := range core.CallsTo(pop, "tree.TreeCacheClient.GetBranchesHighesPrecedence") {
 			for _, sv := range core.CallsTo(pop, "tree.choiceCasesResolver.SetValue") {
-				if a := core.CallArgs(sv); len(a) == 3 && core.HasOrigin(a[1], c.Value()) {
-					calls = append(calls, c)
+				for _, v := range storedInputs(sv, "tree.choicesCaseElement.value") {
+					if core.HasOrigin(v, c.Value()) {
+						calls = append(calls, c)
+						break
+					}
 				}
 			}
 		}
@@ -406,11 +409,11 @@ func c08(w *core.World, r *core.Report) {
 	{
 		// populate: SetValue's value argument depends on both sources
 		for _, c := range core.CallsTo(pop, "tree.choiceCasesResolver.SetValue") {
-			args := core.CallArgs(c)
-			if len(args) != 3 {
+			in := append(storedInputs(c, "tree.choicesCaseElement.value"), storedInputs(c, "tree.choicesCaseElement.new")...)
+			if len(in) == 0 {
 				continue
 			}
-			sl := core.BackwardSlice(pop, []ssa.Value{args[1], args[2]}, []ssa.Instruction{c})
+			sl := core.BackwardSlice(pop, in, []ssa.Instruction{c})
 			r.Check(sl.HasCallTo("tree.TreeCacheClient.GetBranchesHighesPrecedence"), "CONSULTS", core.Site(pop, "value from the index"), w.InstrPos(c), "stored content of other owners")
 			r.Check(sl.HasCallTo("tree.Entry.getHighestPrecedenceValueOfBranch"), "CONSULTS", core.Site(pop, "value from the tree"), w.InstrPos(c), "content of the transaction")
 		}
